@@ -80,7 +80,7 @@ Theorem C16_full_event_only_on_refusal : forall pos inst mw (inner : layer) c w,
   let held := snd (nth inst (w_bulkheads w) (0, 0)) in
   let setheld (w : world) (h : Z) :=
     set_insts w (w_breakers w) (w_limiters w) (upd inst (fun p => (fst p, h)) (w_bulkheads w)) (w_caches w) in
-  (forall e, copy_err w c = Some e -> bulkhead_layer pos inst mw inner c w = (failure_result e, w))
+  (forall e, copy_err w c = Some e -> bulkhead_layer pos inst mw inner c w = (failure_result (cancel_error w c), w))
   /\ (copy_err w c = None -> held < cap ->
       kps (snd (bulkhead_layer pos inst mw inner c w)) = kps (snd (inner c (setheld w (held + 1)))))
   /\ (copy_err w c = None -> cap <= held -> mw = 0 ->
@@ -90,7 +90,7 @@ Theorem C16_full_event_only_on_refusal : forall pos inst mw (inner : layer) c w,
       let i := fst (wait w mw (Some c)) in let w1 := snd (wait w mw (Some c)) in
       (i = true -> kps (snd (bulkhead_layer pos inst mw inner c w)) = kps w1
                    /\ fst (bulkhead_layer pos inst mw inner c w)
-                      = failure_result (match copy_err w1 c with Some e => e | None => EOther end))
+                      = failure_result (cancel_error w1 c))
       /\ (i = false -> fst (bulkhead_layer pos inst mw inner c w) = failure_result EFull
                        /\ kps (snd (bulkhead_layer pos inst mw inner c w)) = (KFull, pos) :: kps w1)).
 Proof. exact bulkhead_full_event_only_on_refusal. Qed.
